@@ -16,12 +16,10 @@ import DltVerif.Model.Types
 
 namespace Dlt.Spec
 
-/-- number of significant bits of `n` (bit length minus trailing zeros) -/
-def sigBits (n : Nat) : Nat :=
-  if n = 0 then 0
-  else
-    let tz := (List.range 200).find? (fun k => n / 2 ^ k % 2 = 1)
-    (Nat.log2 n + 1) - tz.getD 0
+/-- `n` is `c * 2^j` with `c < 2^53`: it has at most 53 significant bits, so it is a double
+    (all numbers here are below `2^200`) -/
+def fits53 (n : Nat) : Bool :=
+  (List.range 200).any fun j => n % 2 ^ j == 0 && decide (n / 2 ^ j < 2 ^ 53)
 
 /-- a finite `f32` given by its bits as `(negative, m, e)` with value `m * 2^e`;
     `none` for infinities and NaN -/
@@ -71,7 +69,7 @@ def realValue (a : Argument) : RealExpect :=
       | none => .unspecified
       | some (qneg, m, e) =>
         let mag := v.natAbs * m
-        if sigBits v.natAbs > 53 ∨ sigBits mag > 53 then .unspecified
+        if !fits53 v.natAbs || !fits53 mag then .unspecified
         else if mag ≠ 0 ∧ ((v < 0) != qneg) then .unspecified      -- negative product
         else
           let p : Nat := if e ≥ 0 then mag * 2 ^ e.toNat else mag / 2 ^ (-e).toNat
